@@ -77,7 +77,17 @@ func downEq(a, b *Node, multiset bool, path string) string {
 		if b.Kind != '*' || b.Nil || len(b.Elems) != len(a.Elems) {
 			return fmt.Sprintf("%s: RESP3 map of %d pairs, RESP2 %.120s", path, len(a.Elems)/2, b.String())
 		}
-		// pairs in any order: the order of a map is not defined
+		if !multiset {
+			// the flat array carries the pairs in the order of the map (the emulator's maps have one: the order
+			// the entries were added in, which is what the RESP3 connection shows)
+			for i := range a.Elems {
+				if why := downEq(a.Elems[i], b.Elems[i], false, fmt.Sprintf("%s{%d}", path, i)); why != "" {
+					return why + " (the RESP2 array does not list the pairs in the order of the RESP3 map)"
+				}
+			}
+			return ""
+		}
+		// replies assembled from unordered tables (COMMAND DOCS ...): pairs in any order
 		idx := map[string]int{}
 		for i := 0; i+1 < len(b.Elems); i += 2 {
 			idx[twinCanon(b.Elems[i])] = i
@@ -87,7 +97,7 @@ func downEq(a, b *Node, multiset bool, path string) string {
 			if !ok {
 				return fmt.Sprintf("%s: map key %.80s of the RESP3 reply is missing in the RESP2 reply %.160s", path, a.Elems[i].String(), b.String())
 			}
-			if why := downEq(a.Elems[i+1], b.Elems[j+1], false, path+"/"+a.Elems[i].String()); why != "" {
+			if why := downEq(a.Elems[i+1], b.Elems[j+1], true, path+"/"+a.Elems[i].String()); why != "" {
 				return why
 			}
 		}
@@ -108,7 +118,7 @@ func downEq(a, b *Node, multiset bool, path string) string {
 			for _, e := range a.Elems {
 				found := false
 				for k, f := range b.Elems {
-					if !used[k] && downEq(e, f, false, path) == "" {
+					if !used[k] && downEq(e, f, multiset && a.Kind != '~', path) == "" {
 						used[k], found = true, true
 						break
 					}
